@@ -3,7 +3,7 @@
 //   emitfuzz record <trace> <arch:x86|x64|a64> <em:asm|builder|compiler> <base-seed> <first-exec> <n-exec> <calls> <mode>
 //   emitfuzz one    <trace> <arch> <em> <exec-seed> <calls> <mode>          (re-run exactly one execution)
 //
-// mode: general | failonly | detinst | detother | lblmem32 | lbloff64 | mem16off | a64elem (dedicated executions for isolated triggers)
+// mode: general | failonly | detinst | detother | lblmem32 | lbloff64 | mem16off | a64elem | regsize | deadjump (dedicated executions for isolated triggers)
 // Every public API call is one `Call` event carrying what the code reported (return value, handler invocations,
 // exception) and the projection of emitter + holder observed AFTER the call; the contract compares it with the
 // projection after the previous call.  The harness judges nothing.  A sanitizer report / crash ends the process;
@@ -450,6 +450,8 @@ struct Exec {
   void isolate(Operand_* ops, size_t n) {
     for (size_t i = 0; i < n; i++) {
       Operand_& o = ops[i];
+      //  regsize: x86 Compiler: register operand whose signature size field is > 64     (x86instapi.cpp query_rw_info: lsb_mask(size))
+      if (cc && is_x86 && mode != "regsize" && o.is_reg() && o.x86_rm_size() > 64) o._signature.set_size(64);
       if (!o.is_mem()) continue;
       BaseMem& m = o.as<BaseMem>();
       if (arch == Arch::kX64 && mode != "lbloff64" && m.has_base_label() && m.offset_lo32() < INT32_MIN + (1 << 24))
@@ -820,6 +822,34 @@ struct Exec {
         emit_tuple(r.chance(1, 2) ? x86::Inst::kIdMov : x86::Inst::kIdLea, 0, RegOnly{}, nullptr, ops, 2, "mem16off");
       }
       probe();
+      return;
+    }
+    if (mode == "regsize") {           // Compiler: a validated instruction whose register operand carries a size field > 64, then finalize
+      c_func_begin(); c_new_vreg();
+      Operand_ ops[2]; Reg a = Reg::from_type_and_id(r.chance(1, 2) ? RegType::kGp16 : RegType::kVec128, uint32_t(r.below(8)));
+      a._signature.set_size(uint32_t(65 + r.below(190)));
+      ops[0] = a; Operand b = x86::ptr(x86::Gp::make_r32(3)); b._signature.set_size(a.reg_type() == RegType::kGp16 ? 2 : 16); ops[1] = b;
+      emit_tuple(a.reg_type() == RegType::kGp16 ? uint32_t(x86::Inst::kIdAdc) : uint32_t(x86::Inst::kIdPaddb), 0, RegOnly{}, nullptr, ops, 2, "regsize");
+      c_func_end();
+      call("finalize", "", [&]() -> uint32_t { return uint32_t(em->finalize()); });
+      return;
+    }
+    if (mode == "deadjump") {          // Compiler: a VALID program whose dead (labelled, unreferenced) block jumps back into live code
+      c_func_begin(); c_new_vreg();
+      for (int i = 0; i < 3; i++) c_new_label();
+      if (vregs.empty() || labels.size() < 3) return;
+      x86::Gp v = x86::Gp::make_r32(vregs[0]);
+      auto I = [&](uint32_t id, const Operand_& o0, const Operand_& o1 = Operand(), const char* src = "deadjump") {
+        Operand_ ops[2] = {o0, o1}; emit_tuple(id, 0, RegOnly{}, nullptr, ops, o1.is_none() ? (o0.is_none() ? 0 : 1) : 2, src); };
+      auto B = [&](uint32_t l) { char in[32]; snprintf(in, sizeof in, "label=%u", l); call("bind", in, [&]() -> uint32_t { return uint32_t(em->bind(Label(l))); }); };
+      uint32_t L1 = labels[0], L2 = labels[1], Lu = labels[2];
+      I(x86::Inst::kIdMov, v, Imm(1)); B(L1); I(x86::Inst::kIdAdd, v, v); I(x86::Inst::kIdJz, Label(L2)); I(x86::Inst::kIdDec, v); I(x86::Inst::kIdJnz, Label(L1));
+      B(L2);
+      call("ret", "", [&]() -> uint32_t { return uint32_t(cc->add_ret(v, Operand())); });
+      B(Lu);                                    // dead code: bound, never referenced
+      I(x86::Inst::kIdJmp, Label(L1));          // ... jumping back into live code
+      c_func_end();
+      call("finalize", "", [&]() -> uint32_t { return uint32_t(em->finalize()); });
       return;
     }
     if (mode == "lbloff64") {          // only the isolated trigger: [label + disp] with disp at the int32 minimum (64-bit)
